@@ -30,6 +30,11 @@ def sc_create(case, ctx):
     if case.get("labels") == "offset":                            # the bin table(s) with shifted row labels as well
         for b in ([bins] if not isinstance(bins, dict) else bins.values()):
             b.index = b.index + 100
+    elif case.get("labels") == "perm" and isinstance(bins, dict):
+        # per-cell tables whose row labels DIFFER from cell to cell (every second one reversed, e.g. left over from sorting)
+        for k, b in enumerate(bins.values()):
+            if k % 2 == 1:
+                b.index = b.index[::-1]
     pixels = {}
     scale = case.get("scale", 1)
     kw = {}
@@ -83,8 +88,21 @@ def sc_create(case, ctx):
             item["bins"] = [[names.index(str(ch)), int(s), int(e)] for ch, s, e in zip(b["chrom"], b["start"], b["end"])]
             item["extra"] = project.ints(b["w"].values) if "w" in b.columns else []
             out.append(item)
+    # cells are collections of their own: a bin column stored for ONE cell afterwards (as balancing does) belongs to that cell
+    from cooler.create import append
+    first = path + "::/cells/" + cells[0]["name"]
+    append(first, "bins", {"later": np.arange(len(table), dtype=float)})
+    leaked = []
+    with h5py.File(path, "r") as f:
+        if "later" in f["bins"]:
+            leaked.append("/")
+        for c in cells[1:]:
+            if "later" in f["cells"][c["name"]]["bins"]:
+                leaked.append(c["name"])
+        own = "later" in f["cells"][cells[0]["name"]]["bins"]
     return {"is_scool": bool(cooler.fileops.is_scool_file(path)), "listed": listed, "cells": out, "ncells": ncells,
-            "root_bins": root_bins, "root_bins_addr": root_bins_addr, "root_chroms_addr": root_chroms_addr}
+            "root_bins": root_bins, "root_bins_addr": root_bins_addr, "root_chroms_addr": root_chroms_addr,
+            "later_column_own": own, "later_column_leaked": leaked}
 
 
 def _view(clr, table, known_old):
